@@ -159,10 +159,10 @@ def positionAt (path : List (Pos P)) (lengths : List F) (progress : F) : Outcome
 
 /-- `bezier_is_flat_enough` -/
 def bezierIsFlatEnough : List (Pos P) → Bool
-  | prev :: t@(curr :: next :: _) =>
+  | prev :: curr :: next :: rest =>
     let limit : P := (0.25 : P) * (0.25 : P) * (4 : P)
     if Scalar.lt limit (Pos.lengthSquared (prev - curr.smul (2 : P) + next)) then false
-    else bezierIsFlatEnough t
+    else bezierIsFlatEnough (curr :: next :: rest)
   | _ => true
 
 /-- inner loop of `bezier_subdivide`: `for j in 0..i { midpoints[j] = (midpoints[j] + midpoints[j+1]) / 2.0 }`,
@@ -200,8 +200,8 @@ def bezierSubdivide (points l r mid : List (Pos P)) :
 
 /-- the `skip(1) / skip(2) / skip(3)` zip with `step_by(2)` of `bezier_approximate`, on `chain.skip(1)`. -/
 def approxTriples : List (Pos P) → List (Pos P)
-  | prev :: curr :: t@(next :: _) =>
-    (prev + curr.smul (2 : P) + next).smul (0.25 : P) :: approxTriples t
+  | prev :: curr :: next :: rest =>
+    (prev + curr.smul (2 : P) + next).smul (0.25 : P) :: approxTriples (next :: rest)
   | _ => []
 
 /-- `bezier_approximate(points, path, l, r, midpoints)`; returns the pushed points and `(l, r, midpoints)`. -/
@@ -477,11 +477,12 @@ def calculatePath (fuel : Nat) (mode : GameMode) (points : List (PathControlPoin
 
 /-- the `length_iter` of `calculate_length`: pushed cumulative lengths, and the final `calculated_len`. -/
 def cumLens (cl : F) : List (Pos P) → List F × F
-  | curr :: t@(next :: _) =>
+  | [] => ([], cl)
+  | [_] => ([], cl)
+  | curr :: next :: rest =>
     let c := cl + Cvt.up (Pos.length F (next - curr))
-    let r := cumLens c t
+    let r := cumLens c (next :: rest)
     (c :: r.1, r.2)
-  | _ => ([], cl)
 
 /-- `matches!(path, [.., a, b] if a == b)` -/
 def lastTwoEqual : List (Pos P) → Bool
